@@ -37,13 +37,15 @@ C03's strict-mode typechecker soundness (`soundM`, Lemmas/TypecheckSound2.lean) 
   Theorems: `levelOk_env` / `level_sound_env` (one request environment, both validation modes on `InFragmentM`),
   `levelOk_policy` / `level_sound_policy` (policy level, linked templates included: the request's environment is among those
   checked and the slots are bound accordingly), `level_sound_strict` (= `level_sound`, static policy sets, authorizer
-  response), `level_sound_strict_sets` (decision, erroring policies, determining policies).
+  response), `level_sound_linked` (policy sets with linked templates), `level_sound_strict_sets` (decision, erroring
+  policies, determining policies).
   Premises of `level_sound` w.r.t. its first formulation — all C03's, added while proving, see its doc comment: `SchemaWF2`
   (true of every schema Rust constructs), `ActionsPresent` (the store holds the schema's action entities — without it the
   statement is FALSE in the model), distinct record-literal keys (a map in Rust), no slots in a static policy.
   * `level_sound_fragment` (kept) — the earlier connective-free fragment under `SchemaWF` only, both modes.
 NOT proved: permissive-mode policies outside `InFragmentM .permissive` (C03's permissive soundness gap: `if`/set literals
-joining entity/record/set types); `level_sound` for templates is `level_sound_policy` (per policy), not restated for sets.
+joining entity/record/set types); for policy sets with linked templates the statement is `level_sound_linked` (its
+hypotheses name, per member, the slot uses and the request's linked environment).
 -/
 namespace Cedar.C16
 open Cedar Cedar.Level Cedar.Slice
@@ -336,6 +338,19 @@ store. -/
 theorem level_sound_strict : level_sound := by
   intro n s ps req es hWF hreq hst hact h
   exact level_sound_authorization n req es ps (fun p hp => levelOk_static n s p req es hWF hreq hst hact (h p hp))
+
+/-- C16 (`level_sound` for policy sets that may contain LINKED TEMPLATES): every member is accepted by strict validation and
+level validation at `n` for its slot uses `pu ru`, the request's environment is one of the member's linked environments and
+the member's slot values have the slot types of that environment. -/
+theorem level_sound_linked (n : Nat) (s : Schema) (ps : List Policy) (req : Request) (es : Entities)
+    (hWF : C03.SchemaWF2 s) (hreq : ConformsRequest s req) (hst : StoreConforms s es) (hact : C03.ActionsPresent s es)
+    (h : ∀ p ∈ ps, ∃ pu ru env vs, env ∈ s.envs pu ru ∧ EnvMatches s env req ∧ C03.SlotsMatch env p.env ∧
+      C03.InFragment2 env p.condition = true ∧ checkPolicy .strict s pu ru p.condition = some vs ∧ accepted vs = true ∧
+      levelPolicy n .strict s pu ru p.condition = some []) :
+    isAuthorized req (atLevel n req es) ps = isAuthorized req es ps := by
+  refine level_sound_authorization n req es ps (fun p hp => ?_)
+  obtain ⟨pu, ru, env, vs, hmem, henv, hsl, hf, hcp, hacc, hl⟩ := h p hp
+  exact levelOk_policy n s pu ru p vs req es env hWF hmem henv hreq hst hact hsl hf hcp hacc hl
 
 /-- … spelled out: same decision, same erroring policies, same determining policies -/
 theorem level_sound_strict_sets (n : Nat) (s : Schema) (ps : List Policy) (req : Request) (es : Entities)
